@@ -1,25 +1,16 @@
-(* C15_js_fresh: a JavaScript factory returns an object tree without shared objects, unless some field is
-   `Array(n).fill(f())` with n >= 2 and f a struct/message factory (one evaluation, n references). *)
+(* C15_js_fresh: a JavaScript factory returns an object tree without shared objects: every object and array
+   literal is a new allocation, and `Array.from({length: n}, () => f())` evaluates f once per element. *)
 From Coq Require Import ZArith List Bool String Lia.
 From Defs Require Import Gen.TypeTables Model.Layout Model.Emit Proofs.EmitCombined Proofs.EmitScope.
 Import ListNotations.
 Open Scope string_scope. Open Scope list_scope. Open Scope Z_scope.
 
-Definition field_no_shared_fill (p : pfield) : bool :=
-  match js_form p with
-  | JFill n (JTypeMap _) => true
-  | JFill n _ => n <=? 1
-  | _ => true
-  end.
-(* construct class 4 (JavaScript): "array of structs or messages" *)
-Definition no_shared_fill (st : pstate) : bool :=
-  forallb (fun d => forallb field_no_shared_fill (pd_fields d)) (all_defs st).
-
+Definition in_range (lo hi : Z) (l : list Z) : Prop := Forall (fun id => lo <= id < hi) l.
 Definition good (cnt : Z) (v : jsval) (cnt' : Z) : Prop :=
-  cnt <= cnt' /\ Forall (fun id => cnt <= id < cnt') (obj_ids v) /\ NoDup (obj_ids v).
+  cnt <= cnt' /\ in_range cnt cnt' (obj_ids v) /\ NoDup (obj_ids v).
 
 Lemma nodup_app_range (a b : list Z) lo mid hi :
-  Forall (fun id => lo <= id < mid) a -> Forall (fun id => mid <= id < hi) b -> NoDup a -> NoDup b -> NoDup (a ++ b).
+  in_range lo mid a -> in_range mid hi b -> NoDup a -> NoDup b -> NoDup (a ++ b).
 Proof.
   induction a as [|x r IH]; simpl; intros Ha Hb Na Nb; auto.
   inversion Ha; subst. inversion Na; subst. constructor; [|apply IH; auto].
@@ -27,92 +18,85 @@ Proof.
   pose proof (proj1 (Forall_forall _ _) Hb _ Hin). simpl in *. lia.
 Qed.
 
-Lemma Forall_range_weaken (l : list Z) lo hi lo' hi' :
-  lo' <= lo -> hi <= hi' -> Forall (fun id => lo <= id < hi) l -> Forall (fun id => lo' <= id < hi') l.
+Lemma range_weaken (l : list Z) lo hi lo' hi' : lo' <= lo -> hi <= hi' -> in_range lo hi l -> in_range lo' hi' l.
 Proof. intros H1 H2 H. eapply Forall_impl; [|exact H]. simpl. intros. lia. Qed.
 
-Lemma jrepeat_one {A} (l : list A) : jrepeat 1 l = l.
-Proof. simpl. apply app_nil_r. Qed.
+Lemma js_rep_good (call : Z -> jres (jsval * Z)) :
+  (forall cnt v c1, call cnt = JOk (v, c1) -> good cnt v c1) ->
+  forall n cnt vs c2, js_rep call n cnt = JOk (vs, c2) ->
+  cnt <= c2 /\ in_range cnt c2 (flat_map obj_ids vs) /\ NoDup (flat_map obj_ids vs).
+Proof.
+  intros Hc. induction n as [|k IH]; simpl; intros cnt vs c2 H.
+  - inversion H; subst. simpl. repeat split; [lia|constructor|constructor].
+  - destruct (call cnt) as [[v c1]|] eqn:E; [|discriminate].
+    destruct (js_rep call k c1) as [[vs' c2']|] eqn:Er; [|discriminate]. inversion H; subst.
+    destruct (Hc _ _ _ E) as (V1 & V2 & V3). destruct (IH _ _ _ Er) as (R1 & R2 & R3). simpl. repeat split; [lia| |].
+    + apply Forall_app. split.
+      * apply (range_weaken _ cnt c1 cnt c2); [lia|lia|exact V2].
+      * apply (range_weaken _ c1 c2 cnt c2); [lia|lia|exact R2].
+    + apply (nodup_app_range _ _ cnt c1 c2); assumption.
+Qed.
 
 Section Fields.
   Variable call : jcallee -> Z -> jres (jsval * Z).
   Hypothesis call_good : forall c cnt v cnt', call c cnt = JOk (v, cnt') -> good cnt v cnt'.
-  Hypothesis call_prim : forall k cnt v cnt', call (JTypeMap k) cnt = JOk (v, cnt') -> obj_ids v = [].
 
   Lemma js_fields_good ps cnt fs c2 :
-    forallb field_no_shared_fill ps = true -> js_fields call ps cnt = JOk (fs, c2) ->
-    cnt <= c2 /\ Forall (fun id => cnt <= id < c2) (flat_map (fun x => obj_ids (snd x)) fs)
-    /\ NoDup (flat_map (fun x => obj_ids (snd x)) fs).
+    js_fields call ps cnt = JOk (fs, c2) ->
+    cnt <= c2 /\ in_range cnt c2 (flat_map (fun x => obj_ids (snd x)) fs) /\ NoDup (flat_map (fun x => obj_ids (snd x)) fs).
   Proof.
-    revert cnt fs c2. induction ps as [|p r IH]; simpl; intros cnt fs c2 Hx H.
+    revert cnt fs c2. induction ps as [|p r IH]; simpl; intros cnt fs c2 H.
     - inversion H; subst. simpl. repeat split; [lia|constructor|constructor].
-    - apply andb_true_iff in Hx. destruct Hx as [Hp Hr].
-      assert (Hv : forall v c1, (match js_form p with
+    - assert (Hv : forall v c1, (match js_form p with
                                  | JScalar c' => call c' cnt
                                  | JString _ => JOk (JPrim true, cnt)
-                                 | JFill n c' => match call c' cnt with JOk (v, cnt') => JOk (JArr cnt' n v, cnt' + 1) | JErr => JErr end
+                                 | JFill n c' => match js_rep (call c') (Z.to_nat n) cnt with
+                                                 | JOk (vs, cnt') => JOk (JArr cnt' vs, cnt' + 1) | JErr => JErr end
                                  end) = JOk (v, c1) -> good cnt v c1).
-      { intros v c1 Hv. unfold field_no_shared_fill in Hp. destruct (js_form p) as [c'|n c'|n].
+      { intros v c1 Hv. destruct (js_form p) as [c'|n c'|n].
         - apply call_good in Hv. exact Hv.
-        - destruct (call c' cnt) as [[v0 c0]|] eqn:Ec; [|discriminate]. inversion Hv; subst. clear Hv.
-          pose proof (call_good _ _ _ _ Ec) as (G1 & G2 & G3).
-          assert (Hids : obj_ids (JArr c0 n v0) = c0 :: obj_ids v0 \/ obj_ids (JArr c0 n v0) = [c0]).
-          { simpl. destruct c' as [k|a|sn|mn].
-            - right. rewrite (call_prim _ _ _ _ Ec). induction (Z.to_nat n); simpl; auto.
-            - apply Z.leb_le in Hp. destruct (Z.to_nat n) as [|[|m]] eqn:En; simpl; [right; auto|left; rewrite app_nil_r; auto|exfalso; lia].
-            - apply Z.leb_le in Hp. destruct (Z.to_nat n) as [|[|m]] eqn:En; simpl; [right; auto|left; rewrite app_nil_r; auto|exfalso; lia].
-            - apply Z.leb_le in Hp. destruct (Z.to_nat n) as [|[|m]] eqn:En; simpl; [right; auto|left; rewrite app_nil_r; auto|exfalso; lia]. }
-          unfold good. destruct Hids as [E|E]; rewrite E.
-          + repeat split; [lia| |].
-            * constructor; [lia|]. eapply Forall_range_weaken; [| |exact G2]; lia.
-            * constructor; auto. intro Hin. pose proof (proj1 (Forall_forall _ _) G2 _ Hin). simpl in *. lia.
-          + repeat split; [lia|constructor; [lia|constructor]|constructor; [intros []|constructor]].
+        - destruct (js_rep (call c') (Z.to_nat n) cnt) as [[vs c0]|] eqn:Ec; [|discriminate]. inversion Hv; subst. clear Hv.
+          destruct (js_rep_good (call c') (call_good c') _ _ _ _ Ec) as (G1 & G2 & G3).
+          unfold good. simpl. repeat split; [lia| |].
+          + constructor; [lia|]. apply (range_weaken _ cnt c0 cnt (c0 + 1)); [lia|lia|exact G2].
+          + constructor; auto. intro Hin. pose proof (proj1 (Forall_forall _ _) G2 _ Hin). simpl in *. lia.
         - inversion Hv; subst. unfold good. simpl. repeat split; [lia|constructor|constructor]. }
       destruct (match js_form p with
                 | JScalar c' => call c' cnt
                 | JString _ => JOk (JPrim true, cnt)
-                | JFill n c' => match call c' cnt with JOk (v, cnt') => JOk (JArr cnt' n v, cnt' + 1) | JErr => JErr end
+                | JFill n c' => match js_rep (call c') (Z.to_nat n) cnt with
+                                | JOk (vs, cnt') => JOk (JArr cnt' vs, cnt' + 1) | JErr => JErr end
                 end) as [[v c1]|] eqn:Ev; [|discriminate].
       destruct (Hv _ _ eq_refl) as (V1 & V2 & V3).
       destruct (js_fields call r c1) as [[fs' c2']|] eqn:Er; [|discriminate]. inversion H; subst. clear H.
-      destruct (IH _ _ _ Hr Er) as (R1 & R2 & R3). simpl. repeat split; [lia| |].
+      destruct (IH _ _ _ Er) as (R1 & R2 & R3). simpl. repeat split; [lia| |].
       + apply Forall_app. split.
-        * apply (Forall_range_weaken _ cnt c1 cnt c2); [lia|lia|exact V2].
-        * apply (Forall_range_weaken _ c1 c2 cnt c2); [lia|lia|exact R2].
+        * apply (range_weaken _ cnt c1 cnt c2); [lia|lia|exact V2].
+        * apply (range_weaken _ c1 c2 cnt c2); [lia|lia|exact R2].
       + apply (nodup_app_range _ _ cnt c1 c2); assumption.
   Qed.
 End Fields.
 
-Lemma js_call_good st : no_shared_fill st = true ->
-  forall fuel c cnt v cnt', js_call st fuel c cnt = JOk (v, cnt') ->
-  good cnt v cnt' /\ (forall k, c = JTypeMap k -> obj_ids v = []).
+Lemma js_call_good st : forall fuel c cnt v cnt', js_call st fuel c cnt = JOk (v, cnt') -> good cnt v cnt'.
 Proof.
-  intros Hx. induction fuel as [|k IH]; intros c cnt v cnt' H; [discriminate|].
+  induction fuel as [|k IH]; intros c cnt v cnt' H; [discriminate|].
   simpl in H. destruct c as [key|a|n|n].
   - unfold js_prim in H. destruct (tlookup key js_types) as [[w kd]|]; [|discriminate]. inversion H; subst.
-    split; [|reflexivity]. unfold good. simpl. repeat split; [lia|constructor|constructor].
-  - discriminate.
+    unfold good. simpl. repeat split; [lia|constructor|constructor].
+  - destruct (find_alias a (ps_aliases st)) as [al|]; [|discriminate]. destruct (pa_target al) as [key|s0]; [|discriminate].
+    unfold js_prim in H. destruct (tlookup key js_types) as [[w kd]|]; [|discriminate]. inversion H; subst.
+    unfold good. simpl. repeat split; [lia|constructor|constructor].
   - destruct (find_def n (ps_structs st)) as [d|] eqn:Ed; [|discriminate].
     destruct (js_fields (js_call st k) (pd_fields d) (cnt + 1)) as [[fs c2]|] eqn:Ef; [|discriminate]. inversion H; subst.
-    split; [|intros k0 E; discriminate].
-    assert (Hd : forallb field_no_shared_fill (pd_fields d) = true).
-    { unfold no_shared_fill in Hx. apply (proj1 (forallb_forall _ _) Hx d). unfold all_defs. apply in_or_app. left.
-      eapply find_def_some_in; eauto. }
-    destruct (js_fields_good (js_call st k) (fun c0 cn v0 cn' E => proj1 (IH c0 cn v0 cn' E))
-                (fun k0 cn v0 cn' E => proj2 (IH _ cn v0 cn' E) k0 eq_refl) _ _ _ _ Hd Ef) as (F1 & F2 & F3).
+    destruct (js_fields_good (js_call st k) IH _ _ _ _ Ef) as (F1 & F2 & F3).
     unfold good. simpl. repeat split; [lia| |].
-    + constructor; [lia|]. eapply Forall_range_weaken; [| |exact F2]; lia.
+    + constructor; [lia|]. apply (range_weaken _ (cnt + 1) cnt' cnt cnt'); [lia|lia|exact F2].
     + constructor; auto. intro Hin. pose proof (proj1 (Forall_forall _ _) F2 _ Hin). simpl in *. lia.
   - destruct (find_def n (ps_msgs st)) as [d|] eqn:Ed; [|discriminate].
     destruct (js_fields (js_call st k) (pd_fields d) (cnt + 1)) as [[fs c2]|] eqn:Ef; [|discriminate]. inversion H; subst.
-    split; [|intros k0 E; discriminate].
-    assert (Hd : forallb field_no_shared_fill (pd_fields d) = true).
-    { unfold no_shared_fill in Hx. apply (proj1 (forallb_forall _ _) Hx d). unfold all_defs. apply in_or_app. right.
-      eapply find_def_some_in; eauto. }
-    destruct (js_fields_good (js_call st k) (fun c0 cn v0 cn' E => proj1 (IH c0 cn v0 cn' E))
-                (fun k0 cn v0 cn' E => proj2 (IH _ cn v0 cn' E) k0 eq_refl) _ _ _ _ Hd Ef) as (F1 & F2 & F3).
+    destruct (js_fields_good (js_call st k) IH _ _ _ _ Ef) as (F1 & F2 & F3).
     unfold good. simpl. repeat split; [lia| |].
-    + constructor; [lia|]. eapply Forall_range_weaken; [| |exact F2]; lia.
+    + constructor; [lia|]. apply (range_weaken _ (cnt + 1) cnt' cnt cnt'); [lia|lia|exact F2].
     + constructor; auto. intro Hin. pose proof (proj1 (Forall_forall _ _) F2 _ Hin). simpl in *. lia.
 Qed.
 
@@ -123,20 +107,18 @@ Proof.
   apply Z.eqb_eq in Exy. subst. contradiction.
 Qed.
 
-Theorem js_fresh_partial st : no_shared_fill st = true ->
-  forall fuel c cnt v cnt', js_call st fuel c cnt = JOk (v, cnt') -> js_fresh v = true.
+(* every successful call of every callee, for every parsed state: no object is reachable twice *)
+Theorem js_fresh_always st fuel c cnt v cnt' : js_call st fuel c cnt = JOk (v, cnt') -> js_fresh v = true.
 Proof.
-  intros Hx fuel c cnt v cnt' H. destruct (proj1 (js_call_good st Hx fuel c cnt v cnt' H)) as (_ & _ & N).
-  apply nodupb_true. exact N.
+  intros H. destruct (js_call_good st fuel c cnt v cnt' H) as (_ & _ & N). apply nodupb_true. exact N.
 Qed.
 
-(* two calls of a factory never share an object: the second call allocates from where the first stopped *)
-Theorem js_calls_disjoint st : no_shared_fill st = true ->
+(* two calls never share an object: the second allocates from where the first stopped *)
+Theorem js_calls_disjoint st :
   forall f1 f2 c1 c2 v1 v2 n1 n2, js_call st f1 c1 0 = JOk (v1, n1) -> js_call st f2 c2 n1 = JOk (v2, n2) ->
   forall id, In id (obj_ids v1) -> ~ In id (obj_ids v2).
 Proof.
-  intros Hx f1 f2 c1 c2 v1 v2 n1 n2 H1 H2 id I1 I2.
-  destruct (proj1 (js_call_good st Hx _ _ _ _ _ H1)) as (_ & G1 & _).
-  destruct (proj1 (js_call_good st Hx _ _ _ _ _ H2)) as (_ & G2 & _).
+  intros f1 f2 c1 c2 v1 v2 n1 n2 H1 H2 id I1 I2.
+  destruct (js_call_good st _ _ _ _ _ H1) as (_ & G1 & _). destruct (js_call_good st _ _ _ _ _ H2) as (_ & G2 & _).
   pose proof (proj1 (Forall_forall _ _) G1 _ I1). pose proof (proj1 (Forall_forall _ _) G2 _ I2). simpl in *. lia.
 Qed.
